@@ -67,6 +67,8 @@ THStart == /\ Is("hstart") /\ HStart(Ev.m)
            /\ UNCHANGED <<H, on, mwd>> /\ Adv
 
 THSelf  == Is("hself")  /\ HSelf(Ev.m, Ev.kind) /\ KeepCfg /\ KeepRoute /\ Adv
+\* settled by the source before it was handed over: routed like any other message
+TPreset == Is("preset") /\ PreSettle(Ev.m, Ev.kind) /\ KeepCfg /\ KeepRoute /\ Adv
 \* the middleware added to handler h (Handler.AddMiddleware) wraps h's function and no other: it ran (once) for
 \* every message of h before the router-level recorder sees the result, and for no message of another handler
 THMw    == /\ Is("hmw") /\ ph[Ev.m] = "handling" /\ Ev.m \in DOMAIN hof /\ hof[Ev.m] = Ev.h /\ Ev.m \notin mwd
@@ -85,7 +87,7 @@ TQuiesce == /\ Is("quiesce")
             /\ UNCHANGED <<rvars, H, own, on, hof, mwd>> /\ Adv
 TSilent == (\E m \in Msgs : Settle(m)) /\ KeepCfg /\ KeepRoute /\ UNCHANGED l
 
-TNext == TReset \/ TEmit \/ THStart \/ THSelf \/ THMw \/ THEnd \/ TPCall \/ TPRet \/ TSettled \/ TQuiesce \/ TSilent
+TNext == TReset \/ TEmit \/ THStart \/ THSelf \/ TPreset \/ THMw \/ THEnd \/ TPCall \/ TPRet \/ TSettled \/ TQuiesce \/ TSilent
 TSpec == TInit /\ [][TNext]_tvars
 
 \* routing invariant: ownership is injective
